@@ -224,9 +224,9 @@ theorem align_exact_of (single : Single K) (P : Lin K → Prop) (Q : List (Obs K
     rw [this]
     exact recentre_relTo T r.center
 
-theorem recovers_general (eps : K) (heps : 0 < eps) :
-    Recovers (fitGeneral eps) (fun _ => True) (fun _ => True) :=
-  fun o wx wu L T h hl _ hT _ => C06.exact_recovery_general eps heps o wx wu L h hl T hT
+theorem recovers_general (eps epsD : K) (heps : 0 < eps) :
+    Recovers (fitGeneral eps epsD) (fun _ => True) (fun _ => True) :=
+  fun o wx wu L T h hl _ hT _ => C06.exact_recovery_general eps epsD heps o wx wu L h hl T hT
 
 theorem recovers_shift :
     Recovers (K := K) fitShifts (fun T => T.m00 = 1 ∧ T.m01 = 0 ∧ T.m10 = 0 ∧ T.m11 = 1)
